@@ -8,6 +8,7 @@ import (
 	"encoding/json"
 	"errors"
 	"fmt"
+	"net"
 	"os"
 	"os/exec"
 	"path/filepath"
@@ -213,7 +214,16 @@ func runOneReattach(c raCase) (sx.V, sx.V) {
 				insts = append(insts, &raInst{test: true, cancel: cancel, closeCh: cch})
 				if c.TestFunc && cfg != nil {
 					cp := *cfg
-					cp.ReattachFunc = func() (runner.AttachedRunner, error) { return &fakeAttached{gone: cch}, nil }
+					addr := cfg.Addr
+					// like the default pid-based function: whoever attaches makes sure something answers at the address
+					cp.ReattachFunc = func() (runner.AttachedRunner, error) {
+						conn, err := net.DialTimeout(addr.Network(), addr.String(), time.Second)
+						if err != nil {
+							return nil, plugin.ErrProcessNotFound
+						}
+						conn.Close()
+						return &fakeAttached{gone: cch}, nil
+					}
 					cfg = &cp
 				}
 				cl := plugin.NewClient(&plugin.ClientConfig{HandshakeConfig: hs, Plugins: plugs(), Reattach: cfg, Logger: hk.QuietLogger()})
